@@ -90,15 +90,24 @@ func (n *UDFNode) runUDF(snapshot []byte) (err error) {
 	}
 
 	forwardErr := make(chan error, 1)
+	// Closed when forwarding failed (a child edge was aborted).
+	forwardFailed := make(chan struct{})
 	go func() {
+		var ferr error
 		out := n.udf.Out()
 		for m := range out {
+			if ferr != nil {
+				// Keep reading so that the UDF never blocks on its output
+				// and can be closed; the node is failing, the data is dropped.
+				continue
+			}
 			if err := edge.Forward(n.outs, m); err != nil {
-				forwardErr <- err
-				return
+				ferr = err
+				// Tell the writing goroutine to stop feeding the UDF.
+				close(forwardFailed)
 			}
 		}
-		forwardErr <- nil
+		forwardErr <- ferr
 	}()
 
 	// The abort callback needs to know when we are done writing
@@ -112,6 +121,10 @@ func (n *UDFNode) runUDF(snapshot []byte) (err error) {
 			select {
 			case in <- m:
 			case <-n.aborted:
+				return
+			case <-forwardFailed:
+				// Nobody is left to pass the results on: stop consuming,
+				// runUDF closes the UDF and returns the forwarding error.
 				return
 			}
 			n.timer.Stop()
